@@ -10,6 +10,7 @@ use e5_harness::*;
 use crate::corpus::*;
 use crate::oracle::*;
 
+#[cfg(stageleft_runtime)]
 pub const META: PropMeta = PropMeta {
     id: "C31",
     quick_runs: 120_000,
@@ -29,6 +30,7 @@ pub const META: PropMeta = PropMeta {
     required_probes: &["slice_partition_multi_batch", "slice_snapshot_skipped_or_repeated", "slice_state_carried", "exhaustive_small_programs"],
 };
 
+#[cfg(stageleft_runtime)]
 pub fn run_one(flow: &Flow, inp: &RunIn<'_>) -> RunOut {
     let kind = flow.kind;
     let steps = workload(kind, inp.run_seed);
@@ -60,6 +62,7 @@ pub fn run_one(flow: &Flow, inp: &RunIn<'_>) -> RunOut {
     out
 }
 
+#[cfg(stageleft_runtime)]
 /// The repository's exhaustive mode as an explorer: all schedules of two small programs.
 fn exhaustive_small(flows: &[LazyFlow]) -> RunOut {
     let mut out = RunOut::default();
@@ -103,6 +106,7 @@ fn exhaustive_small(flows: &[LazyFlow]) -> RunOut {
     out
 }
 
+#[cfg(stageleft_runtime)]
 #[test]
 fn e2e_c31() {
     let Some(cfg) = cfg_for("C31") else { return };
